@@ -7,6 +7,7 @@ import Robsd.Model.StepNext
 import Robsd.Model.Report
 import Robsd.Model.Ls
 import Robsd.Model.Schedule
+import Robsd.Model.Exec
 /-
   robsd_model: the executable models behind a line protocol.
   One request per line: `<component> <op> <args…>`; byte strings are hex
@@ -114,8 +115,38 @@ def schedOf (mode : String) (par : String) (items : String) : Schedule.Cfg :=
   | "robsd-regress" => .regress (par == "1") (its.map fun p => ⟨p.1, p.2⟩)
   | _ => .canvas (its.map fun p => ⟨p.1, p.2⟩)
 
+def pairsOf (s : String) : List (Bytes × Bytes) :=
+  (listOf s).filterMap fun e => match e.splitOn ":" with
+    | k :: v :: [] => some (hexArg k, hexArg v)
+    | _ => none
+
+def schedArgs (s : String) : List (Bytes × List Bytes) :=
+  (listOf s).filterMap fun e => match e.splitOn ":" with
+    | n :: a :: [] => some (hexArg n, (if a == "." then [] else a.splitOn ";").map hexArg)
+    | _ => none
+
+def showArgv (a : List Bytes) : String := ";".intercalate (a.map toHex)
+
 def handle (ws : List String) : String :=
   match ws with
+  | "exec" :: "step" :: name :: st :: rest =>
+    let kv := kvOf rest
+    let lookup := envLookup (pairsOf (kvGet kv "env"))
+    let w : Option Exec.WaitStatus :=
+      if st == "x" then none
+      else if st.startsWith "s" then some (.signaled ((st.drop 1).toString.toNat?.getD 0))
+      else some (.exited ((st.drop 1).toString.toNat?.getD 0))
+    match Exec.stepExec lookup (schedArgs (kvGet kv "sched")) (hexArg name) w with
+    | .ran argv e => s!"ran {e} {showArgv argv}"
+    | .notRun e => s!"notrun {e}"
+  | "exec" :: "hook" :: has :: rest =>
+    let kv := kvOf rest
+    let lookup := envLookup (pairsOf (kvGet kv "env"))
+    let hook : Option (List Bytes) := if has == "0" then none else some ((listOf (kvGet kv "hook")).map hexArg)
+    match Exec.hookAction lookup hook with
+    | .nothing => "nothing"
+    | .error => "error"
+    | .exec argv => s!"exec {showArgv argv}"
   | "sched" :: mode :: par :: offset :: items :: [] =>
     showLines (Schedule.listFrom (Schedule.steps (schedOf mode par items)) (offset.toNat?.getD 0))
   | "ls" :: root :: keep :: b :: lock :: ents :: [] =>
